@@ -121,6 +121,9 @@ struct Ghost {
     last_hk: Option<u64>,        // time of the previous housekeeping tick (coverage counter only)
     heard_at: BTreeMap<u64, u64>, // conn id -> time of the last datagram (>= 2 bytes) the harness delivered on that uplink
     pulled_since: BTreeMap<u64, u64>, // conn id -> time of the op that engaged the link's silence pull (C13, last clause)
+    /// per link index: is the link stall-gated by a FRESH gate pass at the instant of the client op now being judged
+    /// (the project's own `select_connection_idx` run on a CLONE of the pre-state), `None` when not computed
+    fresh_gate: Option<Vec<bool>>,
     live_at: BTreeMap<u64, u64>,  // conn id -> time of the last datagram that refreshes liveness: non-registration (C09) or REG3
     probe_armed: BTreeSet<u64>,   // conn ids on which a keepalive armed the RTT probe SINCE the link's last reset / sample
     max_cto: u64,                 // largest connection timeout configured so far in this case (>= the 5000 ms default)
@@ -1359,6 +1362,15 @@ impl SysComp {
                     buf[..data.len()].copy_from_slice(data);
                     let res = Ok((data.len(), w.client_addr));
                     let reg_complete = w.reg.has_connected;
+                    // C04 "not currently stall-gated", judged against a gate pass made NOW on a clone of the pre-state -
+                    // not against the flags the implementation happens to hold (a must-land path that consults the
+                    // flags before anything refreshed them routes by a stale gate and the flags look fine)
+                    self.g.fresh_gate = None;
+                    if reg_complete && w.cfg.stall_deselect && get_srt_sequence_number(data).is_some() {
+                        let mut cl: Vec<SrtlaConnection> = w.links.iter().map(full_clone).collect();
+                        let _ = srtla_core::selection::select_connection_idx(&mut cl, w.last_selected, now, &w.cfg);
+                        self.g.fresh_gate = Some(cl.iter().map(|c| c.stall_gated).collect());
+                    }
                     rt.block_on(handle_srt_packet(
                         res,
                         &mut buf,
@@ -2346,6 +2358,36 @@ impl SysComp {
     }
 }
 
+/// A separately constructed connection with every field the scheduler reads copied (guard state included).
+fn full_clone(c: &SrtlaConnection) -> SrtlaConnection {
+    let mut d = SrtlaConnection::new_registering(c.conn_id, c.label.clone(), c.local_ip, 0);
+    d.connected = c.connected;
+    d.window = c.window;
+    d.in_flight_packets = c.in_flight_packets;
+    d.packet_log = c.packet_log.clone();
+    d.highest_acked_seq = c.highest_acked_seq;
+    d.last_received = c.last_received;
+    d.last_sent = c.last_sent;
+    d.last_keepalive_sent = c.last_keepalive_sent;
+    d.last_ack_or_rtt_sample_ms = c.last_ack_or_rtt_sample_ms;
+    d.rtt = c.rtt.clone();
+    d.congestion = c.congestion.clone();
+    d.bitrate = c.bitrate.clone();
+    d.reconnection = c.reconnection.clone();
+    let _ = d.batch_sender.drain(c.batch_sender.verif_last_flush_ms());
+    for (data, seq, t) in c.batch_sender.verif_queue() {
+        d.batch_sender.queue_packet(&data, seq, t);
+    }
+    d.batch_sender.set_regime(c.batch_sender.regime());
+    d.phase = c.phase;
+    d.weak = c.weak;
+    d.cc_backing_off = c.cc_backing_off;
+    d.cc_target_bps = c.cc_target_bps;
+    d.loss_degraded = c.loss_degraded;
+    d.verif_set_private(c.verif_private());
+    d
+}
+
 /// how many times op `rxpush` has seen a datagram NOT reach the packet channel in this process
 static RX_LOST: std::sync::atomic::AtomicUsize = std::sync::atomic::AtomicUsize::new(0);
 
@@ -2858,6 +2900,12 @@ impl SysComp {
                 match uniq {
                     Some(u) if holders.contains(&u) || failed_here.contains(&u) => {
                         let c = &w.links[u];
+                        if let Some(fg) = g.fresh_gate.take() {
+                            mon.count("fresh-gate-judged");
+                            if !reset[u] && fg.get(u).copied().unwrap_or(false) {
+                                mon.fail("C04", "sys-routed-to-link-gated-at-that-instant", format!("datagram #{tag} routed to link {}: a gate pass made at that instant on a copy of the pre-state (select_connection_idx at {now}) marks the link stall-gated; the flags the shell routed by: gated={} latched_since={} pulled={}", c.conn_id, c.stall_gated, c.verif_private().stall_latched_since_ms, c.verif_private().silence_pulled));
+                            }
+                        }
                         if !reset[u] && (!c.is_schedulable() || c.is_timed_out(now) || c.stall_gated || !c.connected) {
                             mon.fail("C04", "sys-ineligible-route", format!("datagram #{tag} routed to link {} (schedulable={} timed_out={} gated={} connected={})", c.conn_id, c.is_schedulable(), c.is_timed_out(now), c.stall_gated, c.connected));
                         }
